@@ -258,23 +258,36 @@ Definition dispatch_exact_d (st : dstate) (m : omsg) (t : mtime) (src : Z * Z) (
   | Some l => call_all st l m t src port
   end.
 
-(* OscMessagePatternDispatcher.__call__: for key, funcs in self.active.copy().items():
-   the message address is the PATTERN, the responder's path the address it is matched against.
-   An ill-formed pattern raises re.error at the first key: nothing is invoked. *)
-Fixpoint dispatch_keys (st : dstate) (keys : table) (m : omsg) (t : mtime) (src : Z * Z) (port : Z)
-  : dstate * list inv :=
-  match keys with
-  | [] => (st, [])
-  | (k, l) :: r =>
+(* OscMessagePatternDispatcher.__call__ (repaired, C18_matching_order.diff):
+     matched = [key for key in self.active.copy() if _match_osc_address_pattern(pattern, key)]
+     for func_proxy, func in list(self.wrapped_funcs.items()):
+         if func_proxy.path in matched: fn.value(func, ...)
+   The message address is the PATTERN, the responder's path the address it is matched against; an
+   ill-formed pattern raises re.error at the first key: nothing is invoked.  `wrapped_funcs` is a dict
+   keyed by responder: insertion at add(), deletion at remove(), value replaced in place by the
+   function setter, so it lists this dispatcher's responders in the order of their current
+   registration with the wrapper of their current function -- the matching responders of `cmdp`. *)
+Fixpoint matched_keys (m : omsg) (ks : table) : option (list (list Z)) :=
+  match ks with
+  | [] => Some []
+  | (k, _) :: r =>
     match osc_rematch (m_addr m) k with
-    | MTrue => let '(st1, o1) := call_all st l m t src port in
-               let '(st2, o2) := dispatch_keys st1 r m t src port in (st2, o1 ++ o2)
-    | MFalse => dispatch_keys st r m t src port
-    | _ => (st, [])
+    | MTrue => match matched_keys m r with Some l => Some (k :: l) | None => None end
+    | MFalse => matched_keys m r
+    | _ => None
     end
   end.
+Definition reg_entries (st : dstate) (matched : list (list Z)) : list wrapped :=
+  flat_map (fun id => match nth_error (resps st) id with
+                      | Some r => if r_matching r && existsb (bytes_eqb (r_path r)) matched
+                                  then [{| w_id := id; w_func := r_func r |}] else []
+                      | None => []
+                      end) (cmdp st).
 Definition dispatch_match_d (st : dstate) (m : omsg) (t : mtime) (src : Z * Z) (port : Z) : dstate * list inv :=
-  dispatch_keys st (act_match st) m t src port.
+  match matched_keys m (act_match st) with
+  | None => (st, [])
+  | Some ks => call_all st (reg_entries st ks) m t src port
+  end.
 
 (* _msg_dispatch: every registered receive function gets the message (the two dispatchers live
    in a set; the model lists the exact dispatcher's invocations first) *)
@@ -383,3 +396,24 @@ Definition dispatch_exact_orig (st : dstate) (m : omsg) (t : mtime) (src : Z * Z
   | None => (st, [])
   | Some l => iter_live_orig (S (length l)) st (m_addr m) 0 m t src port
   end.
+
+(* OscMessagePatternDispatcher.__call__ as found (with the list copies of C18_oneshot_skip.diff): walks the table PATH BY
+   PATH, so responders of different paths are not invoked in one registration order:
+   for key, funcs in self.active.copy().items():
+   the message address is the PATTERN, the responder's path the address it is matched against.
+   An ill-formed pattern raises re.error at the first key: nothing is invoked. *)
+Fixpoint dispatch_keys_orig (st : dstate) (keys : table) (m : omsg) (t : mtime) (src : Z * Z) (port : Z)
+  : dstate * list inv :=
+  match keys with
+  | [] => (st, [])
+  | (k, l) :: r =>
+    match osc_rematch (m_addr m) k with
+    | MTrue => let '(st1, o1) := call_all st l m t src port in
+               let '(st2, o2) := dispatch_keys_orig st1 r m t src port in (st2, o1 ++ o2)
+    | MFalse => dispatch_keys_orig st r m t src port
+    | _ => (st, [])
+    end
+  end.
+Definition dispatch_match_orig (st : dstate) (m : omsg) (t : mtime) (src : Z * Z) (port : Z) : dstate * list inv :=
+  dispatch_keys_orig st (act_match st) m t src port.
+
